@@ -136,8 +136,9 @@ def run(model, rep):
                        'the printer are run abstractly on literal arithmetic (shared with C07) and a fold is kept only where the printed text gets strictly shorter; (SORT) bindings are processed by descending new-mention count. '
                        'Not decided: aggregate accuracy of the cost model over real modules.')
     for r, t in [('C17.K1', 'constant-kind classifiers agree and classify by type'), ('C17.GATE', 'rename only under should_rename'),
-                 ('C17.DIR', 'profitability comparisons point the right way'), ('C17.FOLD', 'folds are kept only where the printed text gets strictly shorter (enumerated)'),
-                 ('C17.COST', 'a rename the cost model approves never makes the printed program longer (enumerated over reference forms x name lengths x use counts)'), ('C17.SORT', 'bindings sorted by descending mention count')]:
+ ('C17.FOLD', 'folds are kept only where the printed text gets strictly shorter (enumerated)'),
+                 ('C17.COST', 'a rename the cost model approves never makes the printed program longer (enumerated over reference forms x name lengths x use counts)'),
+                 ('C17.HOIST', 'hoisting a literal never makes the printed program longer (enumerated over literal kinds x lengths x use counts)'), ('C17.SORT', 'bindings sorted by descending mention count')]:
         rep.rule(r, t)
     check_classifiers(model, rep, 'C17', 'C17.K1')
     rep.floor('C17.K1', 3)
@@ -168,53 +169,23 @@ def run(model, rep):
                   'the name-assignment loop deviates from the cost gate: %s' % '; '.join(groups[g][:3]), key='C17.GATE|loop|' + g, cells=2 * sum(1 for sc_ in assign_enum.scenarios() if ('profitable' if sc_['profitable'] else 'forced' if assign_enum.expect_rename(sc_) else 'pinned') == g))
     rep.floor('C17.GATE', 3)
 
-    # ---------------- DIR
-    for q, cands in (('python_minifier.rename.binding.NameBinding.should_rename', ['new_name']),
-                     ('python_minifier.rename.rename_literals.HoistedBinding.should_rename', ['new_name'])):
-        fi = model.func(q)
-        defs = local_defs(fi.node)
-        for n_ in walk_own(fi.node):
-            if isinstance(n_, ast.Return) and n_.value is not None:
-                rel, why = compare_direction(fi, defs, n_.value, cands)
-                rep.check(rel in ('le', 'lt'), 'C17.DIR', fi.loc(n_), '%s: return %s' % (q.split('.')[-2], src(n_.value)), why, 'profitability comparison is wrong way round: ' + why,
-                          key='C17.DIR|' + q.split('.')[-2])
-        # the candidate cost must count every new mention and the current cost every reference
-        if q.endswith('NameBinding.should_rename'):
-            cur = single_def(defs, 'current_cost')
-            rc = single_def(defs, 'rename_cost')
-            e_rc = src(expand(rc, defs, 6)) if rc is not None else ''
-            ok = cur is not None and 'len(self.references)' in src(cur).replace('_references', 'references') and 'len(self._name)' in src(cur) and \
-                'new_mention_count()' in e_rc and 'old_mention_count()' in e_rc and 'additional_byte_cost()' in e_rc and 'len(new_name)' in e_rc
-            rep.check(ok, 'C17.DIR', fi.loc(), 'NameBinding cost terms', 'current = refs*len(name); candidate = old*len(name) + new*len(new_name) + extra',
-                      'cost model lost a term: current=%s candidate=%s' % (src(cur), e_rc), key='C17.DIR|NameBinding|terms')
+    # ---------------- (the direction of the profitability comparisons and the completeness of the cost terms are decided by C17.COST below)
     # a fold is kept only where the text gets strictly shorter: decided by running the transform and the printer abstractly (shared with C07)
     from .c07 import enum as fold_enum
     fold_enum(model, rep, rule='C17.FOLD', only_length=True)
-    rep.floor('C17.DIR', 3)
 
     # ---------------- COST: the model's decision against the printed size
     from . import cost_enum
     cost_enum.run(model, rep)
+    cost_enum.run_hoist(model, rep)
 
-    # ---------------- SORT
-    sb = model.func('python_minifier.rename.renamer.sorted_bindings')
-    ok = False
-    why = 'no sorted(...) call returned'
-    for n_ in walk_own(sb.node):
-        if isinstance(n_, ast.Return) and isinstance(n_.value, ast.Call) and src(n_.value.func) == 'sorted':
-            c = n_.value
-            rev = kwarg(c, 'reverse')
-            key = kwarg(c, 'key')
-            keyf = model.funcs.get(sb.qual + '.' + key.id) if isinstance(key, ast.Name) else None
-            key_ok = False
-            if keyf is not None:
-                rets = [x for x in walk_own(keyf.node) if isinstance(x, ast.Return)]
-                key_ok = len(rets) == 1 and src(rets[0].value).endswith('.new_mention_count()')
-            elif isinstance(key, ast.Lambda):
-                key_ok = src(key.body).endswith('.new_mention_count()')
-            ok = isinstance(rev, ast.Constant) and rev.value is True and key_ok
-            why = 'sorted(..., key=%s, reverse=%s)' % (src(key), src(rev))
-    rep.check(ok, 'C17.SORT', sb.loc(), 'sorted_bindings', why, 'bindings are not processed by descending new-mention count (short names go to rarely used bindings): ' + why, key='C17.SORT')
-    used = any(isinstance(c.func, ast.Name) and c.func.id == 'sorted_bindings' for c in calls(na.node))
-    rep.check(used, 'C17.SORT', na.loc(), 'assignment loop iterates sorted_bindings(module)', 'ordered iteration', 'the assignment loop no longer iterates the sorted bindings', key='C17.SORT|use')
+    # ---------------- SORT: rename() evaluated on one scope with four bindings of different mention counts
+    named, counts = assign_enum.sort_world(model)
+    order = [n_ for (n_, _nm) in named]
+    want = sorted(counts, key=lambda k: -counts[k])
+    rnf = model.func('python_minifier.rename.renamer.rename')
+    rep.check(order == want, 'C17.SORT', rnf.loc(), 'bindings named in the order %s (new mentions %s)' % (order, [counts[k] for k in order]), 'descending new-mention count',
+              'bindings are not processed by descending new-mention count (short names go to rarely used bindings): %s' % [(k, counts[k]) for k in order], key='C17.SORT')
+    lens = [len(nm) for (_n, nm) in named]
+    rep.check(lens == sorted(lens), 'C17.SORT', rnf.loc(), 'names handed out: %s' % [nm for (_n, nm) in named], 'shortest names first', 'the most used bindings do not receive the shortest names', key='C17.SORT|use')
     rep.floor('C17.SORT', 2)
